@@ -65,7 +65,7 @@ Prefixes == <<
 \* ENames (receivers) is a constant of the model
 EVals == <<I(1), S(<<97>>), NameArg("b")>>
 EKeys == <<S(<<107, 49>>), S(<<107, 51>>), I(0)>>
-Ops0 == <<"reverse", "sort", "clear", "copy", "keys", "values", "items", "len", "sorted", "reversed", "iter">>
+Ops0 == <<"reverse", "sort", "clear", "copy", "keys", "values", "items", "len", "sorted", "sortedby", "reversed", "iter">>
 Ops1V == <<"append", "remove", "count", "index", "in", "sadd", "extend", "plus", "update", "union", "intersection", "difference">>
 Ops1S == <<"get", "pop", "delete", "mget">>
 Ops2S == <<"set", "cset", "insert", "setdefault">>
@@ -108,7 +108,7 @@ ScalarSeq == << VInt(0), VInt(1), VInt(2), VInt(-1), VInt(7), VInt(1), VStr(<<97
 KeySeq == << <<107, 49>>, <<107, 50>>, <<107, 51>>, <<233>>, <<>> >>
 ListOpsR == <<"get", "get", "slice", "slice", "slice", "slice", "slice", "set", "set", "cset", "append", "append", "insert", "insert", "pop", "pop",
               "remove", "extend", "reverse", "sort", "clear", "copy", "copy", "count", "index", "in", "len", "delete", "plus",
-              "sorted", "reversed", "iter", "map", "map", "filter", "each", "bind", "bind">>
+              "sorted", "sortedby", "reversed", "iter", "map", "map", "filter", "each", "bind", "bind">>
 MapOpsR == <<"get", "get", "set", "set", "cset", "in", "len", "delete", "keys", "values", "items", "mget", "mget", "pop", "pop",
              "setdefault", "update", "clear", "copy", "copy", "attr", "setattr", "sorted", "iter", "bind", "bind">>
 SetOpsR == <<"get", "in", "len", "delete", "sadd", "sadd", "sadd", "remove", "remove", "union", "intersection", "difference",
@@ -180,7 +180,7 @@ GenStep(h, e, z, lst) ==
        [] op = "update" -> Step(op, RDst(2, z[6], z[7]), x, NameArg(RNameOf("map", e, z[4], z[5])), NoArg)
        [] op \in {"union", "intersection", "difference"} -> Step(op, RDst(8, z[6], z[7]), x, NameArg(RNameOf("set", e, z[4], z[5])), NoArg)
        [] op \in {"reverse", "sort", "clear", "len"} -> Step(op, RDst(2, z[6], z[7]), x, NoArg, NoArg)
-       [] op \in {"copy", "keys", "values", "items", "sorted", "reversed", "iter"} -> Step(op, RDst(8, z[6], z[7]), x, NoArg, NoArg)
+       [] op \in {"copy", "keys", "values", "items", "sorted", "sortedby", "reversed", "iter"} -> Step(op, RDst(8, z[6], z[7]), x, NoArg, NoArg)
        [] op = "mget" -> Step(op, RDst(5, z[6], z[7]), x, sub, IF z[8] % 2 = 0 THEN RVal(z[9], z[10]) ELSE NoArg)
        [] op = "setdefault" -> Step(op, RDst(4, z[6], z[7]), x, sub, RVal(z[8], z[9]))
        [] op = "attr" -> [Step(op, RDst(6, z[6], z[7]), x, NoArg, NoArg) EXCEPT !.keys = <<Sel(SubSeq(KeySeq, 1, 3), z[5])>>]
